@@ -74,15 +74,26 @@ def gen_layout(r, comma, name='F'):
             v = r.choice(['foo%d', 'bar%d', 'amd64-%d', 'any%d', 'a%d', 'linux-any%d', '#hash%d', 'x#y%d', '!armel%d'])
         vals.append(v % i if r.random() < .8 else v.replace('%d', ''))
     flags = set()
+    texts = {}
     if comma and r.random() < .2:
         # ONE item of a comma list may itself span several lines (long dependency with version, arch list, profiles)
         k = r.randrange(len(vals))
         parts = ['ml%d' % k] + [r.choice(['(>= 1.%d~)', '[linux-any kfreebsd-any]', '<!nocheck>', '<!stage1 !cross>', 'x%d', '| alt%d'])
                                 .replace('%d', str(j)) for j in range(r.randint(1, 5))]
-        v = parts[0]
+        v = t = parts[0]
         for part in parts[1:]:
-            v += '\n' + r.choice([' ', ' ', '\t', '  ']) + r.choice(['', ' ', '   ']) + part
+            cont = r.choice([' ', ' ', '\t', '  ']) + r.choice(['', ' ', '   ']) + part
+            v += '\n' + cont
+            t += '\n'
+            if r.random() < .3:
+                # comment lines INSIDE the item: they are no part of its value
+                t += ''.join(r.choice(['# inside\n', '#\n', '# a, b\n', '#,\n']) for _ in range(r.choice([1, 1, 2])))
+                flags.add('comment-inside-item')
+                if k == len(vals) - 1:
+                    flags.add('comment-inside-last-item')
+            t += cont
         vals[k] = v
+        texts[k] = t
         flags.add('multi-line')
         flags.add('multi-line-item')
     out = name + ':' + r.choice(['', ' ', ' ', '  ', '\t'])
@@ -106,7 +117,7 @@ def gen_layout(r, comma, name='F'):
         out += ',' + r.choice(['', ' '])
         flags.add('irregular-separators')
     for i, v in enumerate(vals):
-        out += v
+        out += texts.get(i, v)
         last = (i == len(vals) - 1)
         if comma:
             if not last or r.random() < .4:
@@ -398,7 +409,12 @@ def run_case(ctx, case):
                     model.pop(k)
                 ctx.mon('M.edit')
                 if list(l) != model:
-                    ctx.violation('live-list-differs-from-model-after-%s' % kind,
+                    live = list(l)
+                    k = 'live-list-differs-from-model-after-%s' % kind
+                    if len(live) == len(model) and any(a != b and [x for x in a.split('\n') if not x.startswith('#')] == b.split('\n')
+                                                       for a, b in zip(live, model)):
+                        k = 'comment-line-inside-item-reported-as-value-text'
+                    ctx.violation(k,
                                   'field %r step %d %r: live %r model %r' % (ftxt, step, op, list(l), model))
                     return
             if v2 is not None and not second['exit_first']:
